@@ -1,4 +1,5 @@
 """C06 -- automaton-driven enumeration (M1, M2, M3, U1)."""
+from ..rules import misc_rules as MI
 from ..rules import rep_rules as RR
 from ..rules import enum_rules as E
 from ..rules import fsa_rules as F
@@ -31,6 +32,7 @@ def run(ctx):
     ctx.do(DT.rule_lk1, ["geometry_tools/representation.py"], scope=ctx.scope(ENTRIES))
     ctx.do(E.rule_m4)
     ctx.do(SI.rule_fw1)
+    ctx.do(MI.rule_m5)
     ctx.do(SI.rule_bfs2)
     ctx.do(RR.rule_wp1)
     ctx.do(u1, ENTRIES, min_functions=10)
